@@ -23,7 +23,7 @@ ASSUMPTIONS = [
 ]
 
 STATES = ["unpinned", "pinned-same", "pinned-different", "unparsable", "unparsable-pinned", "changed-after-success",
-          "pinned-twin", "pinned-different-expired", "pinned-other-port"]
+          "pinned-twin", "pinned-different-expired", "pinned-other-port", "pinned-long-ago", "pinned-then-failed-import"]
 HOSTS = ["target", "target", "0:0:0:0:0:0:0:1", "target."]
 OPS = ["get", "get-query", "upload", "delete"]
 
@@ -85,7 +85,7 @@ def run_case(case: dict):
     if case["op"] != "get":
         case["redirect"] = False  # only plain fetches follow redirects
     state = case["state"]
-    presented = {"unpinned": "ec-a", "pinned-same": "ec-a", "pinned-different": "ec-b", "pinned-twin": "twin-b", "pinned-different-expired": "ec-expired", "pinned-other-port": "ec-b",
+    presented = {"unpinned": "ec-a", "pinned-same": "ec-a", "pinned-different": "ec-b", "pinned-twin": "twin-b", "pinned-different-expired": "ec-expired", "pinned-other-port": "ec-b", "pinned-long-ago": "ec-b", "pinned-then-failed-import": "ec-b",
                  "unparsable": "hostile-bool", "unparsable-pinned": "hostile-v4", "changed-after-success": "ec-b"}[state]
     T = case.get("host") or "target"  # the spelling of the target host in URLs, pins and redirects
     TA = f"[{T}]" if ":" in T else T
@@ -109,12 +109,21 @@ def run_case(case: dict):
             # the same host name serves another capsule on another port with another certificate - the one now presented here
             db.trust(T, 1966, x509.load_der_x509_certificate(certs.get("ec-b").der))
             db.trust(T, 300, x509.load_der_x509_certificate(certs.get("ec-b").der))
-        if state in ("pinned-same", "pinned-different", "unparsable-pinned", "pinned-different-expired", "pinned-other-port"):
+        if state in ("pinned-same", "pinned-different", "unparsable-pinned", "pinned-different-expired", "pinned-other-port",
+                     "pinned-long-ago", "pinned-then-failed-import"):
             db.trust(T, 1965, x509.load_der_x509_certificate(certs.get("ec-a").der))
         if state == "pinned-twin":
             # the pinned certificate and the presented one share issuer name and serial number (both are chosen by
             # whoever makes a self-signed certificate) but not the key
             db.trust(T, 1965, x509.load_der_x509_certificate(certs.get("twin-a").der))
+        if state == "pinned-long-ago":
+            # the host was pinned years ago and has not been visited since
+            import sqlite3
+
+            con = sqlite3.connect(str(dbpath))
+            con.execute("UPDATE known_hosts SET first_seen = '2019-03-01T00:00:00+00:00', last_seen = '2019-03-02T00:00:00+00:00'")
+            con.commit()
+            con.close()
         ckw = {}
         if case.get("sslctx") == "supplied":
             from nauyaca.security.tls import create_client_context
@@ -123,6 +132,17 @@ def run_case(case: dict):
         client = GeminiClient(timeout=20, tofu_db_path=dbpath, **ckw)
         if case.get("ctx") == "after":
             async with client:
+                pass
+        if state == "pinned-then-failed-import":
+            # a replace-mode import through the client's own store object fails on its second entry
+            bad = Path(d) / "bad.toml"
+            bad.write_text('[_metadata]\nversion = "1.0"\n\n[hosts."new.example:1965"]\nhostname = "new.example"\nport = 1965\n'
+                           'fingerprint = "sha256:' + "a" * 64 + '"\nfirst_seen = "2020-01-01T00:00:00+00:00"\nlast_seen = "2021-01-01T00:00:00+00:00"\n\n'
+                           '[hosts."bad.example:1965"]\nhostname = "bad.example"\nport = 70000\nfingerprint = "sha256:' + "b" * 64 + '"\n'
+                           'first_seen = "2020-01-01T00:00:00+00:00"\nlast_seen = "2021-01-01T00:00:00+00:00"\n')
+            try:
+                client.tofu_db.import_toml(bad, merge=False)
+            except Exception:
                 pass
         if state == "changed-after-success":
             # the same long-lived client first completes a verified fetch; then the peer starts presenting another certificate
@@ -181,7 +201,8 @@ def run_case(case: dict):
         import shutil
 
         shutil.rmtree(d, ignore_errors=True)
-    should_fail = state in ("pinned-different", "unparsable", "unparsable-pinned", "changed-after-success", "pinned-twin", "pinned-different-expired", "pinned-other-port")
+    should_fail = state in ("pinned-different", "unparsable", "unparsable-pinned", "changed-after-success", "pinned-twin", "pinned-different-expired", "pinned-other-port", "pinned-long-ago",
+                           "pinned-then-failed-import")
     if case.get("dbfault") and not should_fail:
         # the matching pin could not be (fully) consulted/updated: the call may fail or succeed; nothing to require here
         # beyond 'nothing before verification started', which was checked above
